@@ -201,6 +201,11 @@ func c07Compile(text []byte, s c07Setting, path string, limit time.Duration) (er
 func c07CompileFrom(rd io.Reader, s c07Setting, path string, limit time.Duration) (err error, hung bool, witness string) {
 	done := make(chan error, 1)
 	go func() {
+		defer func() {
+			if e := recover(); e != nil {
+				done <- fmt.Errorf("%w: %v", errC07Panic, e)
+			}
+		}()
 		if s.CDB {
 			done <- harness.CompileCDBFrom(rd, path, s.Workers)
 		} else {
@@ -335,6 +340,9 @@ func c07CheckFailing(lines []string, bad string, pos int, s c07Setting) (msg str
 		}
 		return "", "compile with a rejected line still running after the watchdog"
 	}
+	if errors.Is(err, errC07Panic) {
+		return fmt.Sprintf("file with the rejected line %q at line %d: %v", bad, pos+1, err), ""
+	}
 	if err == nil {
 		return fmt.Sprintf("file with the rejected line %q at line %d compiled without error", bad, pos+1), ""
 	}
@@ -365,6 +373,9 @@ type c07Reader struct {
 }
 
 var errC07Injected = errors.New("injected read error")
+
+// errC07Panic marks a compilation that panicked (recovered in the goroutine that called the compiler).
+var errC07Panic = errors.New("the compiler panicked")
 
 func (r *c07Reader) Read(p []byte) (int, error) {
 	if r.failAt >= 0 && r.off >= r.failAt {
@@ -426,6 +437,9 @@ func c07CheckInput(lines []string, s c07Setting, kind string, pos int) (msg stri
 			return "compilation (" + kind + ") does not return (structural deadlock witness):\n" + witness, ""
 		}
 		return "", "compile (" + kind + ") still running after the watchdog"
+	}
+	if errors.Is(err, errC07Panic) {
+		return "compilation (" + kind + "): " + err.Error(), ""
 	}
 	if err != nil {
 		if kind == "shortreads" {
